@@ -29,7 +29,12 @@ func checkC07(c streamCase) (Outcome, error) {
 	if undecidable(d) {
 		return Outcome{Skip: "uniformity P within 1e-9 of 1e-4"}, nil
 	}
-	v, err := w.Seq(gen.NewReader(stream))
+	src, done := openSource(c, stream)
+	v, err := w.Seq(src)
+	done()
+	if c.Source != "" {
+		out.Classes = append(out.Classes, "source:"+c.Source)
+	}
 	if e := compareWithModel(c.Workflow+" detection", v, err, d); e != nil {
 		return out, e
 	}
